@@ -697,9 +697,12 @@ def gen_listform(first_versions):
                         yield ['mergelist', [v1, si], [v2, sj]]
     for op in pairs(0):
         yield {'history': [op]}
+    quick = len(first_versions) == 1
     for s0 in range(len(S)):
         for v0 in first_versions:
             for op in pairs(s0):
+                if quick and (s0 > 0 or (op[1][1], op[2][1]) not in [(0, 0), (0, 1), (1, 2)]):
+                    continue          # quick tier: one version already in the store at s1, the list stamped (s1,s1), (s1,s2) or (s2,s3)
                 yield {'history': [['merge', v0, s0], op]}
 
 
